@@ -355,20 +355,24 @@ fn open_signatures(id: &str) -> Vec<String> {
 struct Rule {
     property: String,
     signature: String,
-    /// every one of these must occur in the violation message
+    /// every one of these must occur in the HEAD of the message: the first line and its continuation lines
+    /// (error text, expected/got, expr/text lines) up to — not including — the echoed `sql:` line
     #[serde(default)]
-    all: Vec<String>,
-    /// at least one of these must occur (when non-empty)
+    head: Vec<String>,
+    /// at least one of these must occur in the head (when non-empty)
     #[serde(default)]
-    any: Vec<String>,
-    /// none of these may occur
+    head_any: Vec<String>,
+    /// every one of these must occur in the printed PLAN(S) (text after the first `plan:` line)
     #[serde(default)]
-    none: Vec<String>,
+    plan: Vec<String>,
+    /// at least one of these must occur in the printed plan(s) (when non-empty)
+    #[serde(default)]
+    plan_any: Vec<String>,
 }
 
-/// Message-shape rules (`crates/vf-serde/signatures.json`): families of recorded findings that are recognised
-/// by the text of the violation (first matching rule wins). Coarser than the code-level tags — a rule can hide
-/// another defect with the same symptom — so every rule names the construct that must be present in the plan.
+/// Message-shape rules (`crates/vf-serde/signatures.json`): recorded findings recognised by the symptom in the
+/// head of the violation message plus a construct of the printed plan (first matching rule wins). The echoed
+/// SQL / unparsed SQL text is never looked at.
 fn rules() -> &'static Vec<Rule> {
     static RULES: std::sync::OnceLock<Vec<Rule>> = std::sync::OnceLock::new();
     RULES.get_or_init(|| {
@@ -386,8 +390,41 @@ fn rules() -> &'static Vec<Rule> {
     })
 }
 
+/// (head, plans) of a violation message
+fn message_sections(msg: &str) -> (String, String) {
+    let mut head = String::new();
+    let mut rest_at = msg.len();
+    let mut pos = 0;
+    for line in msg.split_inclusive('\n') {
+        let t = line.trim_start();
+        if t.starts_with("sql:") || t.starts_with("unparsed:") || t.ends_with("plan:\n") || t.trim_end().ends_with("plan:") {
+            rest_at = pos;
+            break;
+        }
+        head.push_str(line);
+        pos += line.len();
+    }
+    let rest = &msg[rest_at.min(msg.len())..];
+    let plans = match rest.find("plan:\n") {
+        Some(i) => rest[i + 6..].to_string(),
+        None => String::new(),
+    };
+    (head, plans)
+}
+
 fn rule_signature(id: &str, msg: &str) -> Option<String> {
-    rules().iter().find(|r| r.property == id && r.all.iter().all(|s| msg.contains(s.as_str())) && (r.any.is_empty() || r.any.iter().any(|s| msg.contains(s.as_str()))) && !r.none.iter().any(|s| msg.contains(s.as_str()))).map(|r| r.signature.clone())
+    let (head, plans) = message_sections(msg);
+    rules()
+        .iter()
+        .find(|r| {
+            r.property == id
+                && (!r.head.is_empty() || !r.head_any.is_empty())
+                && r.head.iter().all(|s| head.contains(s.as_str()))
+                && (r.head_any.is_empty() || r.head_any.iter().any(|s| head.contains(s.as_str())))
+                && r.plan.iter().all(|s| plans.contains(s.as_str()))
+                && (r.plan_any.is_empty() || r.plan_any.iter().any(|s| plans.contains(s.as_str())))
+        })
+        .map(|r| r.signature.clone())
 }
 
 /// The signature the engine matches against known_findings.json. Tagged violations (`[known:a,b]`): the first
@@ -511,11 +548,22 @@ pub fn table_function_scans(plan: &LogicalPlan, tables: &[Table]) -> Vec<String>
 /// line of a violation message
 pub fn first_diff(a: &str, b: &str) -> String {
     let (la, lb): (Vec<&str>, Vec<&str>) = (a.lines().collect(), b.lines().collect());
-    let short = |s: &str| -> String { s.trim().chars().take(90).collect() };
     for i in 0..la.len().max(lb.len()) {
-        let (x, y) = (la.get(i).copied().unwrap_or("<end>"), lb.get(i).copied().unwrap_or("<end>"));
+        let (x, y) = (la.get(i).copied().unwrap_or("<end>").trim(), lb.get(i).copied().unwrap_or("<end>").trim());
         if x != y {
-            return format!("`{}` => `{}`", short(x), short(y));
+            // node name + the region around the first differing character
+            let (cx, cy): (Vec<char>, Vec<char>) = (x.chars().collect(), y.chars().collect());
+            let mut k = 0;
+            while k < cx.len() && k < cy.len() && cx[k] == cy[k] {
+                k += 1;
+            }
+            let name = |c: &Vec<char>| -> String { c.iter().take_while(|ch| **ch != ':' && **ch != ' ').collect() };
+            let around = |c: &Vec<char>| -> String {
+                let from = k.saturating_sub(30);
+                let part: String = c.iter().skip(from).take(110).collect();
+                if from > 0 { format!("…{part}") } else { part }
+            };
+            return format!("[{}] `{}` => [{}] `{}`", name(&cx), around(&cx), name(&cy), around(&cy));
         }
     }
     "<no line differs>".into()
@@ -547,4 +595,58 @@ pub fn union_schema_drift(plan: &LogicalPlan) -> bool {
         Ok(TreeNodeRecursion::Continue)
     });
     drift
+}
+
+/// `UnionExec::try_new` (used by the decoder) wraps every child whose schema differs from the union schema in a
+/// coercing `ProjectionExec: expr=[k0@0 as k0, CAST(k1@1 AS T) as k1, ..]` (recorded finding
+/// `union-exec-decode-readds-coercion-projection`). This removes exactly such lines (direct children of a
+/// UnionExec / InterleaveExec line, every item a column or a CAST of a column kept under its own name) from an
+/// indented plan text and moves their subtrees up.
+pub fn strip_union_coercion_projections(text: &str) -> String {
+    fn is_coercion(line: &str) -> bool {
+        let t = line.trim();
+        let Some(body) = t.strip_prefix("ProjectionExec: expr=[").and_then(|r| r.strip_suffix(']')) else { return false };
+        if body.is_empty() {
+            return false;
+        }
+        body.split(", ").all(|item| {
+            let Some((lhs, name)) = item.rsplit_once(" as ") else { return false };
+            let col = match lhs.strip_prefix("CAST(") {
+                Some(r) => match r.split_once(" AS ") {
+                    Some((c, ty)) if ty.ends_with(')') && !ty.contains(' ') => c,
+                    _ => return false,
+                },
+                None => lhs,
+            };
+            match col.rsplit_once('@') {
+                Some((n, idx)) => n == name && !idx.is_empty() && idx.chars().all(|c| c.is_ascii_digit()),
+                None => false,
+            }
+        })
+    }
+    let indent = |l: &str| l.len() - l.trim_start().len();
+    let lines: Vec<&str> = text.lines().collect();
+    let mut out: Vec<String> = vec![];
+    // stack of (original indent, is union, shift applied to children)
+    let mut stack: Vec<(usize, bool, usize)> = vec![];
+    for l in lines {
+        if l.trim().is_empty() {
+            out.push(l.to_string());
+            continue;
+        }
+        let ind = indent(l);
+        while let Some(&(i, _, _)) = stack.last() {
+            if i >= ind { stack.pop(); } else { break; }
+        }
+        let (parent_union, parent_shift) = stack.last().map(|&(_, u, s)| (u, s)).unwrap_or((false, 0));
+        if parent_union && is_coercion(l) {
+            stack.push((ind, false, parent_shift + 2));
+            continue;
+        }
+        let t = l.trim_start();
+        let is_union = t.starts_with("UnionExec") || t.starts_with("InterleaveExec");
+        out.push(format!("{}{}", " ".repeat(ind.saturating_sub(parent_shift)), t));
+        stack.push((ind, is_union, parent_shift));
+    }
+    out.join("\n")
 }
